@@ -9,10 +9,15 @@ VARIABLE i
 Init == i \in 1..Len(Cases)
 Next == UNCHANGED i
 RunAny(p) == IF "mods" \in DOMAIN p THEN RunProject(p) ELSE Run(p)
-ConstOk(c) == c.const_enabled \/ (c.cobs.rejected /\ c.cobs.diag /\ ~c.cobs.started)
+ConstOk(c) == c.legal \/ c.const_enabled \/ (c.cobs.rejected /\ c.cobs.diag /\ ~c.cobs.started)
+(* a form that denotes a same-named local (GenConst!Legal) is no write to the const: the program with `const` is accepted and *)
+(* behaves like its twin - in particular the const still shows its initializer                                              *)
+LegalOk(c) == ~c.legal \/ (LET r == RunAny(c.twin) IN
+                            r.status \in {"fuel", "type"} \/ (r.status = "ok" /\ c.cobs.exit = 0 /\ ~c.cobs.rejected /\ c.cobs.out = r.out))
 TwinOk(c) == ~c.has_twin \/ (LET r == RunAny(c.twin) IN
                              r.status \in {"fuel", "type"} \/ (r.status = "ok" /\ c.tobs.exit = 0 /\ c.tobs.out = r.out))
 Judge == LET c == Cases[i] IN
          /\ ConstOk(c) \/ PrintT("CONSTWRITE " \o ToJson([id |-> c.id]))
+         /\ LegalOk(c) \/ PrintT("LEGAL " \o ToJson([id |-> c.id, expected |-> RunAny(c.twin).out, status |-> RunAny(c.twin).status]))
          /\ TwinOk(c) \/ PrintT("TWIN " \o ToJson([id |-> c.id, expected |-> RunAny(c.twin).out, status |-> RunAny(c.twin).status]))
 =============================================================================
